@@ -88,8 +88,12 @@ def run(ctx):
     R7 = rep.rule('C01.R7', 'take/remove (get_shard_mut) look in the shard that get/insert (get_shard) use (shared with C01)', floor=2)
     R9 = rep.rule('C10.R7', 'a Type pairs the TypeId of T with the descriptor of the same T (shared with C10): look-ups use the key the insertion used', floor=2)
     R8 = rep.rule('C10.R8', 'AssetMap::insert stores its entry argument if and only if the key was absent (shared with C10)', floor=2)
+    S10 = rep.rule('C01.R8', 'get_cached / contains answer from the map itself: a look-up says `absent` only when the hash map has no such entry (shared with C01)', floor=3)
     for cfg, F in ctx.cfgs():
         hr = 'hot-reloading' in ctx.cfg_features[cfg]
+        from c01 import r8 as absent_only_if_not_in_map
+        absent_only_if_not_in_map(S10, cfg, F)
+        S10.finish_cfg(cfg)
         from c10 import r8 as stores_the_entry_argument
         stores_the_entry_argument(R8, cfg, F)
         R8.finish_cfg(cfg)
